@@ -38,16 +38,17 @@ def all_skeletons(tier):
     return [(t, s, f) for t, s, f in gen.skeletons(1 if tier == "quick" else 2)]
 
 
+NT = 64
+
+
 def tasks(tier):
-    n = len(all_skeletons(tier))
-    chunk = max(4, n // 64 + 1)
-    return [{"tier": tier, "lo": lo, "hi": min(n, lo + chunk)} for lo in range(0, n, chunk)]
+    return [{"tier": tier, "stride": i} for i in range(NT)]
 
 
 def run_task(task, kf):
     from ..sym import loader
     out, first = [], True
-    for typ, src, fid in all_skeletons(task["tier"])[task["lo"]:task["hi"]]:
+    for typ, src, fid in all_skeletons(task["tier"])[task["stride"]::NT]:
         for runner in common.RUNNERS:
             out.append(explore.explore(harness(typ, src, fid, runner, 60 if task["tier"] == "quick" else 150), kf,
                                        profile_root=loader.SRC if first else None))
